@@ -22,7 +22,7 @@ REAL = ["pyvsc (all of src/vsc)", "PyBoolector"]
 STUB = ["user code (generated)", "stdout (sink)"]
 ASSUMPTIONS = ["aggregates over random-size lists (sum/product/unique/in-list) are gated out of the "
                "generator: known finding KF-C04-RANDSZ-AGG (replayed by every run of the check)"]
-REQUIRED_NONZERO = {"*": ["judged_calls", "edits", "randsz_calls", "foreach_calls", "agg_calls",
+REQUIRED_NONZERO = {"*": ["witness_calls", "probes", "judged_calls", "edits", "randsz_calls", "foreach_calls", "agg_calls",
                           "len_checks", "nested_appends"]}
 
 
